@@ -121,6 +121,10 @@ def _run_group(R, pid, g, tier, seed, scratch, infos):
                 harnesses.append(h)
         R.assumptions.extend(_scan_assumes(src))
     sel = [h for h in harnesses if tier == 'thorough' or h['tier'] == 'quick']
+    only = os.environ.get('VERIF_ONLY')  # development aid: restrict to obligations matching a regex
+    if only:
+        sel = [h for h in sel if re.search(only, h['obligation'])]
+        R.undecided.append(f'kani: VERIF_ONLY={only} set: partial run, not a decision')
     info = dict(package=pkg, harness_files=[h for _, h in g['injections']], harnesses_defined=len(harnesses),
                 harnesses_selected=len(sel), tier=tier)
     infos.append(info)
@@ -220,31 +224,50 @@ def _playback(scratch, pkg, h, env):
     out = dict(reproduced=False, test_source=None, result=None)
     try:
         cmd = ['cargo', 'kani', '-p', pkg, '-Z', 'function-contracts', '-Z', 'stubbing', '-Z', 'concrete-playback',
-               '--concrete-playback=inplace', '--harness', h['harness'], '--output-format', 'terse']
+               '--concrete-playback=print', '--harness', h['harness'], '--output-format', 'terse']
         p = subprocess.run(cmd, cwd=scratch, env=env, capture_output=True, text=True, timeout=1800)
-        # find the generated test in the injected harness copy
+        txt = p.stdout
+        # blocks: doc comments + #[test] fn kani_concrete_playback_<harness>_<hash>() { ... }
+        blocks = re.findall(r'((?:[ \t]*///[^\n]*\n)*[ \t]*#\[test\]\s*fn\s+(kani_concrete_playback_' + re.escape(h['harness'])
+                            + r'_\d+)\s*\(\)\s*\{.*?\n[ \t]*\})', txt, re.S)
+        blocks = [(b, n) for b, n in blocks if 'Check for `cover`' not in b]
+        if not blocks:
+            out['result'] = 'kani produced no concrete playback test: ' + txt[-600:]
+            return out
+        seen = set()
+        uniq = []
+        for b, n in blocks:
+            if n not in seen:
+                seen.add(n)
+                uniq.append((b, n))
+        out['test_source'] = '\n\n'.join(b for b, _ in uniq[:4])
         inj = None
         for root, _, files in os.walk(scratch):
             if 'target' in root.split(os.sep):
                 continue
             for fn in files:
-                if fn.startswith(h['module']) and fn.endswith('_injected.rs'):
+                if fn == h['module'] + '_injected.rs':
                     inj = os.path.join(root, fn)
         if not inj:
             out['result'] = 'injected harness copy not found'
             return out
-        txt = open(inj).read()
-        m = re.search(r'(#\[test\]\s*fn\s+(kani_concrete_playback_' + re.escape(h['harness']) + r'\w*)\s*\(\)\s*\{.*?\n\})', txt, re.S)
-        if not m:
-            out['result'] = 'kani produced no concrete playback test: ' + p.stdout[-600:]
-            return out
-        out['test_source'] = m.group(1)
-        tname = m.group(2)
-        cmd2 = ['cargo', 'kani', 'playback', '-Z', 'concrete-playback', '-p', pkg, '--', tname]
-        p2 = subprocess.run(cmd2, cwd=scratch, env=env, capture_output=True, text=True, timeout=1800)
-        tail = (p2.stdout + p2.stderr)[-1500:]
-        out['result'] = tail
-        out['reproduced'] = ('panicked' in tail) or ('FAILED' in tail) or ('failed' in tail and p2.returncode != 0)
+        with open(inj, 'a') as f:
+            f.write('\n#[cfg(test)]\nmod verif_playback {\n    use super::*;\n')
+            for b, _ in uniq[:4]:
+                f.write(b + '\n')
+            f.write('}\n')
+        results = []
+        rep = False
+        for _, tname in uniq[:4]:
+            cmd2 = ['cargo', 'kani', 'playback', '-Z', 'concrete-playback', '-p', pkg, '--', tname]
+            p2 = subprocess.run(cmd2, cwd=scratch, env=env, capture_output=True, text=True, timeout=1800)
+            tail = (p2.stdout + p2.stderr)
+            m = re.search(r"panicked at [^\n]*\n[^\n]*", tail)
+            results.append(f'{tname}: ' + (m.group(0) if m else tail[-400:]))
+            if 'panicked' in tail or re.search(r'test result: FAILED', tail):
+                rep = True
+        out['result'] = '\n'.join(results)
+        out['reproduced'] = rep
     except Exception as e:
         out['result'] = f'playback failed: {e}'
     return out
